@@ -103,7 +103,7 @@ class C17(Prop):
     harness = "h_gencode.c"
     theorems = ["EaselModel.Props.C17." + t for t in (
         "tables_pinned", "table_ids", "no_initiator_stop", "expand_is_iupac", "translation_spec", "translation_shared",
-        "initiator_spec", "initiator_settings", "window_split_invariant")]
+        "initiator_spec", "initiator_settings", "window_split_invariant", "orf_stream_eq_spec")]
     claimed = True
     technique = ("Lean 4 proof: built-in tables regenerated from the tree = hand-pinned NCBI tables by `decide`; general theorems (any table, any "
                  "degeneracy matrix) that the triple loop computes the shared amino acid / all-initiators; ORF machine modelled and tied by exact "
@@ -114,11 +114,13 @@ class C17(Prop):
                   "of codes; proof by induction on the loop, not enumeration): the triple loop with early return of esl_gencode_GetTranslation = "
                   "'amino acid shared by all canonical codons the triplet stands for, else X'; IsInitiator = 'all of them initiators'; the two "
                   "initiator policies; for every DNA sequence and EVERY split into windows the Process* machine ends in the same state as with a "
-                  "single window. The ORF machine itself (3 frames, coordinates, strand, first residue M) is tied to the tree by exact differential "
-                  "run and monitored against an independent declarative ORF finder on random/adversarial DNA.")
+                  "single window; and (orf_stream_eq_spec) the streaming machine with its rolling codon / degeneracy countdown / three interleaved "
+                  "frames emits, for each frame of either strand, exactly the ORF records of a sequential one-frame ORF finder over that frame's "
+                  "codons (coordinates, residues, first residue M when initiators are required, minimum length, flush at the strand end). "
+                  "The machine model is tied to the tree by exact differential run and monitored against an independent ORF finder in Python.")
     level_note = ("Trusted: Lean kernel + standard axioms; table dumper; hand model fidelity checked by the differential run (all 18^3 triplets x 18 tables "
-                  "x 3 settings every run). Not yet a theorem: streaming machine = declarative ORF specification (checked by monitor only); "
-                  "Read(Write t) = t is exercised on the real code only.")
+                  "x 3 settings every run). Not yet theorems: the one-frame finder = 'split at stops, drop leading non-initiators' (the finder is itself the "
+                  "specification used), global numbering/order of the emitted records (monitored), Read(Write t) = t (exercised on the real code).")
     diverge_is_violation = True
     trusted_base = ["table dumper translate/tables_gencode.py (#includes esl_gencode.c, prints esl_transl_tables[])",
                     "hand model of esl_gencode.c tied by exact differential run (h_gencode.c, ASan+UBSan)",
